@@ -1188,16 +1188,33 @@ func main() {
 		seen[key] = true
 		sum.Sample(c, 3)
 
-		if s != nil && !res.skipK && nkeys <= *kmax && len(res.chunkKey) > 0 {
+		lit := 0 // cost of evaluating the byte-string literals of the case
+		if s != nil {
+			for _, e := range s.es {
+				lit += len(e.k)*len(e.k)*len(e.k) + len(e.v)*len(e.v)*len(e.v)
+			}
+		}
+		if s != nil && !res.skipK && nkeys <= *kmax && lit > 40000000 {
+			sum.Count("misc", "K-skipped(long byte strings)")
+		}
+		if s != nil && !res.skipK && nkeys <= *kmax && lit <= 40000000 && len(res.chunkKey) > 0 {
 			es := make([]string, len(s.order))
 			for i, e := range s.order {
 				es[i] = coqKV(e)
+			}
+			idx := map[string]int{}
+			for i, e := range s.es {
+				idx[string(e.k)] = i
 			}
 			var chunks []string
 			for _, ks := range res.chunkKey {
 				var l []string
 				for _, k := range ks {
-					l = append(l, coqout.Bytes(k))
+					if i, ok := idx[string(k)]; ok {
+						l = append(l, fmt.Sprint(i))
+					} else {
+						l = append(l, "99999999")
+					}
 				}
 				chunks = append(chunks, coqout.List(l))
 			}
